@@ -1247,6 +1247,25 @@ impl FilterState {
         map
     }
 }
+/// Observation-only verification hook: this thread's in-progress per-subscriber
+/// filter bitmap and pending interest (0 never, 1 sometimes, 2 always).
+#[cfg(feature = "verif-hooks")]
+#[doc(hidden)]
+pub fn __verif_filtering_bits() -> (u64, Option<u8>) {
+    FILTERING.with(|filtering| {
+        let interest = filtering.interest.borrow().as_ref().map(|i| {
+            if i.is_never() {
+                0
+            } else if i.is_always() {
+                2
+            } else {
+                1
+            }
+        });
+        (filtering.enabled.get().bits, interest)
+    })
+}
+
 /// This is a horrible and bad abuse of the downcasting system to expose
 /// *internally* whether a subscriber has per-subscriber filtering, within
 /// `tracing-subscriber`, without exposing a public API for it.
